@@ -220,7 +220,7 @@ def sorted_lists(ctx, sorted_locals):
             reps += 1
             lid = strip(e).get("id")
             a = sorted_locals.get((fn["path"], lid))
-            key = "sorted-list/" + T.render(items)
+            key = "sorted-list/" + T.render_pos(items)
             if a is None:
                 ctx.bad("C06.3", key, site(node), "the repetition iterates `%s`, which is not a Vec sorted immediately after collection" % strip(e).get("name"))
                 continue
